@@ -1,0 +1,107 @@
+//go:build verif
+// +build verif
+
+package evm
+
+// Constructor and accessors for the unexported transaction pool, for the verification harness
+// (build tag verif only).
+
+import (
+	"sort"
+
+	"github.com/spf13/viper"
+
+	"github.com/dappledger/AnnChain/eth/common"
+	estate "github.com/dappledger/AnnChain/eth/core/state"
+	etypes "github.com/dappledger/AnnChain/eth/core/types"
+	"github.com/dappledger/AnnChain/eth/ethdb"
+	"github.com/dappledger/AnnChain/gemmill/types"
+)
+
+// VerifPool wraps an ethTxPool whose account nonces come from an in-memory state.
+type VerifPool struct {
+	tp  *ethTxPool
+	app *EVMApp
+}
+
+// VerifPoolTx describes one queued transaction.
+type VerifPoolTx struct {
+	Nonce uint64
+	Hash  common.Hash
+}
+
+func NewVerifPool(pendingLimit, waitingLimit int) (*VerifPool, error) {
+	st, err := estate.New(common.Hash{}, estate.NewDatabase(ethdb.NewMemDatabase()))
+	if err != nil {
+		return nil, err
+	}
+	app := &EVMApp{state: st, Signer: new(etypes.HomesteadSigner)}
+	conf := viper.New()
+	conf.Set("block_size", 1)
+	tp := NewEthTxPool(app, conf)
+	tp.pendingLimit = pendingLimit
+	tp.waitingLimit = waitingLimit
+	return &VerifPool{tp: tp, app: app}, nil
+}
+
+func (v *VerifPool) Signer() etypes.Signer { return v.app.Signer }
+
+func (v *VerifPool) SetNonce(addr common.Address, n uint64) {
+	v.app.stateMtx.Lock()
+	v.app.state.SetNonce(addr, n)
+	v.app.stateMtx.Unlock()
+}
+
+func (v *VerifPool) ReceiveTx(raw []byte) error { return v.tp.ReceiveTx(types.Tx(raw)) }
+
+func (v *VerifPool) Reap(n int) [][]byte {
+	txs := v.tp.Reap(n)
+	out := make([][]byte, len(txs))
+	for i, t := range txs {
+		out[i] = []byte(t)
+	}
+	return out
+}
+
+func (v *VerifPool) Update(height int64, txs [][]byte) {
+	ts := make([]types.Tx, len(txs))
+	for i, t := range txs {
+		ts[i] = types.Tx(t)
+	}
+	v.tp.Update(height, ts)
+}
+
+func (v *VerifPool) UpdateToState() { v.tp.updateToState() }
+func (v *VerifPool) Flush()         { v.tp.Flush() }
+func (v *VerifPool) Size() int      { return v.tp.Size() }
+func (v *VerifPool) GetPendingMaxNonce(addr []byte) (uint64, error) {
+	return v.tp.GetPendingMaxNonce(addr)
+}
+
+func dumpQueues(m map[common.Address]*txSortedMap) map[common.Address][]VerifPoolTx {
+	out := map[common.Address][]VerifPoolTx{}
+	for a, sm := range m {
+		var l []VerifPoolTx
+		for n, tx := range sm.items {
+			l = append(l, VerifPoolTx{Nonce: n, Hash: tx.Hash()})
+		}
+		sort.Slice(l, func(i, j int) bool { return l[i].Nonce < l[j].Nonce })
+		out[a] = l
+	}
+	return out
+}
+
+// Snapshot returns the pending and waiting queues, the lookup map's hashes and the extra list.
+func (v *VerifPool) Snapshot() (pending, waiting map[common.Address][]VerifPoolTx, all []common.Hash, ext [][]byte) {
+	v.tp.Lock()
+	defer v.tp.Unlock()
+	pending = dumpQueues(v.tp.pending)
+	waiting = dumpQueues(v.tp.waiting)
+	for h := range v.tp.all {
+		all = append(all, h)
+	}
+	for e := v.tp.extTxs.Front(); e != nil; e = e.Next() {
+		ext = append(ext, []byte(e.Value.(types.Tx)))
+	}
+	return
+}
